@@ -842,6 +842,20 @@ BUDGET = {"admm": 300, "ladmm": 1500, "padmm": 3000, "nlpadmm": 3000, "pdhg": 20
 
 
 def one(ctx, model, rng, alg, recipe, kkt, xs, traj, tag):
+    """`_one`, with an exception raised INSIDE the library on this manufactured problem reported as a failing input instead of
+    ending the run as an infrastructure error"""
+    try:
+        return _one(ctx, model, rng, alg, recipe, kkt, xs, traj, tag)
+    except Infra:
+        raise
+    except Exception as e:  # noqa: BLE001
+        if type(e).__name__ == "ModelErr" or not G.raised_in_library(e):
+            raise
+        fail = {"class": alg, "recipe": recipe, "kkt_state": kkt, "raised": f"{type(e).__name__}: {e}"[:400]}
+        ctx.disagree(f"steps.{alg}.raises", {"recipe": recipe, "kkt": kkt}, fail["raised"], "evaluates", oracle=lambda c: fail)
+
+
+def _one(ctx, model, rng, alg, recipe, kkt, xs, traj, tag):
     # non-linear C / H make the problem non-convex: only the fixed-point part of the property applies
     nonconvex = False
     if alg == "admm" and recipe.get("solver") in ("fblock", "g0block"):
@@ -878,9 +892,52 @@ def one(ctx, model, rng, alg, recipe, kkt, xs, traj, tag):
     ctx.count(f"stream:{tag}")
 
 
+F32_RTOL = 5e-4
+
+
+def default_precision(ctx, model):
+    """the library's DEFAULT mode (no jax_enable_x64): manufactured KKT states of every class (real / complex, all solver kinds) are
+    written into optimisers built at float32 / complex64 in a worker subprocess; one step() must not raise, must keep every state
+    array 32-bit, and must leave the state fixed to float32 tolerance"""
+    rng = np.random.Generator(np.random.PCG64(ctx.seed + 5407))
+    per = 5 if ctx.thorough else 2
+    items = []
+    for alg in G.ALGS:
+        made = 0
+        for _ in range(60):
+            if made >= per:
+                break
+            m = manufacture(rng, alg)
+            if m is None:
+                continue
+            made += 1
+            items.append(m)
+    res = G.run_f32_worker([{"recipe": {k: v for k, v in m[0].items()}, "pre": m[1]} for m in items])
+    ignore = ("mem", "fpr", "t", "L")
+    mode = "float32 / complex64 (jax_enable_x64 off)"
+    for (recipe, kkt, xs), rec in zip(items, res):
+        a = recipe["alg"]
+        key = G.describe({k: v for k, v in recipe.items() if not k.startswith("_")})
+        ctx.case({"default_precision_fixed_point": key}, ("f32", key, tuple(np.asarray(xs).tolist())), sample_every=6)
+        ctx.count(f"default-precision-fixed-point:{a}" + (":complex64" if recipe.get("cplx") else ":float32"))
+        if rec.get("raised") or rec.get("bad_dtypes"):
+            fail = {"class": a, "recipe": recipe, "kkt_state": kkt, "mode": mode, "raised": rec.get("raised"),
+                    "state_dtypes_not_32bit": rec.get("bad_dtypes"), "dtypes": rec.get("dtypes")}
+            ctx.disagree(f"steps.{a}.default_precision", {"recipe": recipe, "kkt": kkt, "mode": mode},
+                         {k: fail[k] for k in ("raised", "state_dtypes_not_32bit")}, "step() evaluates; state stays 32-bit",
+                         oracle=lambda c, fail=fail: fail)
+            continue
+        fld = G.states_close(kkt, rec["post"], rtol=F32_RTOL, skip=ignore)
+        if fld is not None:
+            fail = {"class": a, "recipe": recipe, "kkt_state": kkt, "mode": mode, "field": fld, "after_step_float32": rec["post"][fld]}
+            ctx.disagree(f"steps.{a}.default_precision.kkt-fixed-point", {"recipe": recipe, "kkt": kkt, "mode": mode},
+                         {fld: rec["post"][fld]}, {fld: kkt[fld]}, oracle=lambda c, fail=fail: fail)
+
+
 def correspond(ctx, model):
     common.setup_scico()
     rng = ctx.rng
+    default_precision(ctx, model)
     for name, c in corpus_cases():
         one(ctx, model, rng, c["recipe"]["alg"], c["recipe"], c["kkt"], c["xstar"], True, "corpus")
         ctx.count(f"corpus:{name}")
